@@ -1226,12 +1226,19 @@ func c17Rotate(p *core.Program, r *core.Report) {
 	info := fi.Pkg.TypesInfo
 	norm := func(e ast.Expr) string { return strings.ReplaceAll(stripSpaces(types.ExprString(e)), rn+".", "") }
 	isUnitCall := func(e ast.Expr) bool {
-		call, ok := ast.Unparen(e).(*ast.CallExpr)
-		if !ok {
-			return false
-		}
-		s := norm(call.Fun)
-		return strings.Contains(s, "DateUnit") || strings.Contains(s, "YYYYMMDD")
+		// today's date unit, directly or inside the value a helper assembles
+		// (fileGeneration{dateUnit: dateutil.GetDateUnitNow(), rotation: ...})
+		found := false
+		ast.Inspect(inlineValue(p, fi, e, 0), func(n ast.Node) bool {
+			if call, ok := n.(*ast.CallExpr); ok {
+				s := norm(call.Fun)
+				if strings.Contains(s, "DateUnit") || strings.Contains(s, "YYYYMMDD") {
+					found = true
+				}
+			}
+			return true
+		})
+		return found
 	}
 	isField := func(e ast.Expr) bool {
 		sel, ok := ast.Unparen(e).(*ast.SelectorExpr)
